@@ -57,6 +57,9 @@ def run(res, tier, br, model_ok=True, search=False):
                 variants.append(("paths-json", list(names), ["-f", "json"]))
             if seq and si % 5 == 2:
                 variants.append(("dir", ["."], []))
+            if seq and si % 3 == 1:
+                # the same path mentioned more than once: one verdict per mention
+                variants.append(("paths-repeat", list(names) + [rng.choice(names) for _ in range(rng.randint(1, 2))], []))
             for vname, argv, opts in variants:
                 use_sub = (tier == "thorough" and si % 7 == 0) or (si % 40 == 0)
                 out = run_cli(opts + argv, d) if use_sub else main_inprocess(opts + argv, d)
@@ -65,7 +68,8 @@ def run(res, tier, br, model_ok=True, search=False):
                     res.nontriv((seq, vname))
                 # per-file outcomes observed with the real lexer + engine
                 outcomes = []
-                for nm in names:
+                vnames = argv if vname.startswith("paths") else names
+                for nm in vnames:
                     src = open(os.path.join(d, nm)).read()
                     r = pipeline(nm, src)
                     outcomes.append((nm, r))
@@ -77,7 +81,7 @@ def run(res, tier, br, model_ok=True, search=False):
                     continue
                 # ---- oracle: the property itself
                 if vname != "paths-json":
-                    oracle(res, seq, vname, names, outcomes, out, replay)
+                    oracle(res, seq, vname, vnames, outcomes, out, replay)
                 # ---- correspondence with the model (explicit paths only: order is defined)
                 if vname.startswith("paths") and model_ok:
                     files = []
